@@ -103,13 +103,18 @@ SIBLINGS = {
     'C01-r2-1': ['C01', 'C02'],   # label/goto renamed inconsistently: the renaming relation is C02's oracle
     'C01-r2-3': ['C01', 'C02'],   # name map shared between minifier runs: non-injective renaming (C02)
     'C01-r3-2': ['C01', 'C02'],   # an unrenamed identifier collides with an earlier generated name: non-injective renaming (C02)
-    'C08-r4-3': ['C08', 'C14'],   # the AST *walker* skips if-blocks (the parser's tree is intact): require() inside an if is not packaged (C14)
+    'C08-r4-3': ['C08', 'C14'],
+    'C19-r5-2': ['C19', 'C20'],   # the change is in #include processing (a commented-out include is expanded): C20's "every other line unchanged"   # the AST *walker* skips if-blocks (the parser's tree is intact): require() inside an if is not packaged (C14)
 }
 
 # changes whose author's demonstration is not a violation of the property as stated (kept for the record, not counted as misses)
 NOT_A_VIOLATION = {
     'C09-r4-3': 'only affects `0xff..s` (hex/binary numeral directly followed by `..`), which the Lua 5.2 / PICO-8 lexer rejects as a malformed '
                 'number: not a valid program, so outside the domain of C09 (and of the reference lexer)',
+    'C08-r5-3': 'same lexer change as C09-r4-3: only `0x10..name` (hex/binary numeral directly followed by `..`) is affected, which the Lua 5.2 / '
+                'PICO-8 lexer rejects as a malformed number - not a program of the dialect',
+    'C16-r5-3': 'only affects a .p8 file in which a section header occurs twice; neither PICO-8 nor picotool writes such a file and the format '
+                'description does not say what it means, so it is not one of the "such files" of the statement',
     'C14-r4-2': 'a require() inside a stripped game-loop function is followed: if its file is missing the build fails, which the statement '
                 'prescribes for a require() whose file cannot be found; if it exists one more required name is defined once - neither '
                 'contradicts the statement',
